@@ -169,6 +169,50 @@ def gen_culture(ctx, cu):
             yield MD_CULT[cu](mo, d, M), R, [p.isoformat(), f.isoformat()], 'XXXX-%02d-%02d' % (mo, d), 'monthday|name', rel
 
 
+# year-less NUMERIC dates behind the culture's own preposition / article, both separators, day-first cultures: d-m and d/m, both numbers <= 12
+NUM_CARRIERS = {'es-es': ['{}', 'el {}', 'nos vemos el {}'], 'fr-fr': ['{}', 'le {}', 'je pars le {}'], 'pt-br': ['{}', 'em {}', 'vou em {}', 'no {}'], 'it-it': ['{}', 'il {}', 'parto il {}'],
+                'de-de': ['{}', 'am {}', 'ich komme am {}'], 'nl-nl': ['{}', 'op {}', 'ik vertrek op {}']}
+
+
+def run_numeric_culture(job, ctx):
+    from rtmon import lib
+    cu = job['culture']
+    m = dtlib.dt_model(cu)
+    r = ctx.rng('c09:num:' + cu)
+    n = 40 if ctx.tier == 'quick' else 600
+    for _ in range(n):
+        d, mo = r.randrange(1, 13), r.randrange(1, 13)
+        if d == mo:
+            continue
+        R = dtlib.rand_ref(r)
+        if (R.month, R.day) == (mo, d):
+            continue
+        for sep in (['/', '-'] if cu != 'de-de' else ['.', '/']):
+            expr = r.choice(['%d%s%d', '%02d%s%02d']) % (d, sep, mo)
+            for car in NUM_CARRIERS[cu]:
+                if car == '{}' and sep != '/':
+                    continue          # a bare 'd-m' / 'd.m' without its article is not taken for a date by the unchanged tree (it could be anything)
+                q = car.format(expr)
+                st = q.index(expr)
+                en = st + len(expr) - 1
+                pv, fv = occ(mo, d, R.date())
+                want = {'timex': 'XXXX-%02d-%02d' % (mo, d), 'values': [pv.isoformat(), fv.isoformat()]}
+                where = {'model': 'DateTimeModel', 'culture': cu, 'cls': 'numeric day-first|' + sep}
+                key = '%s|%s|%s' % (cu, q, R.isoformat())
+                case = {'culture': cu, 'query': q, 'reference': R.isoformat(), 'expr': expr}
+                res = [e for e in m.parse(q, R) if e.start <= en and e.end >= st]
+                ctx.event('boundary_calls')
+                ctx.observe(key=key, nontrivial=len(res) == 1, cell=cu + ':numeric', sample={'culture': cu, 'query': q, 'observed': dtlib.view(res)})
+                ok = (len(res) == 1 and res[0].type_name == 'datetimeV2.date' and res[0].end == en and res[0].start <= st and
+                      [v.get('timex') for v in dtlib.vals(res[0])] == [want['timex']] * 2 and [v.get('value') for v in dtlib.vals(res[0])] == want['values'])
+                if not ok:
+                    mech = 'numeric-date-not-read-day-first'
+                    swapped = 'XXXX-%02d-%02d' % (d, mo)
+                    if cu == 'fr-fr' and sep == '-' and len(res) == 1 and [v.get('timex') for v in dtlib.vals(res[0])] == [swapped] * 2:
+                        mech = 'fr-dash-date-read-month-first'          # known-finding classifier
+                    ctx.fail(mech, where, key, case, want, dtlib.view(res))
+
+
 PAIR_JOIN = {'en-us': ' and ', 'es-es': ' y el ', 'fr-fr': ' et le ', 'it-it': ' e il ', 'pt-br': ' e ', 'nl-nl': ' en ', 'de-de': ' und '}
 
 
@@ -232,12 +276,15 @@ def plan(tier, seed):
     jobs = [{'name': 's%d' % i, 'shard': i, 'shards': n} for i in range(n)]
     jobs += [{'name': 'cult-' + cu, 'culture': cu} for cu in sorted(WD_CULT)]
     jobs += [{'name': 'pairs-' + cu, 'kind': 'pairs', 'culture': cu} for cu in sorted(PAIR_JOIN)]
+    jobs += [{'name': 'numeric-' + cu, 'kind': 'numeric', 'culture': cu} for cu in sorted(NUM_CARRIERS)]
     return jobs
 
 
 def run(job, ctx):
     if job.get('kind') == 'pairs':
         return run_pairs(job, ctx)
+    if job.get('kind') == 'numeric':
+        return run_numeric_culture(job, ctx)
     if 'culture' in job:
         cu = job['culture']
         m = dtlib.dt_model(cu)
